@@ -80,6 +80,53 @@ def both_loads(text):
     return old, new
 
 
+def _kw_sets():
+    import pvl.decoder as pd
+    import pvl.grammar as pg
+    return [
+        ("decoder=PVLDecoder()", lambda: dict(decoder=pd.PVLDecoder())),
+        ("decoder=ODLDecoder()", lambda: dict(decoder=pd.ODLDecoder())),
+        ("decoder=OmniDecoder()", lambda: dict(decoder=pd.OmniDecoder())),
+        ("decoder=PDSLabelDecoder()", lambda: dict(decoder=pd.PDSLabelDecoder())),
+        ("grammar=PVLGrammar()", lambda: dict(grammar=pg.PVLGrammar())),
+        ("grammar=ODLGrammar()", lambda: dict(grammar=pg.ODLGrammar())),
+        ("grammar=ISISGrammar()", lambda: dict(grammar=pg.ISISGrammar())),
+        ("grammar=OmniGrammar(), decoder=OmniDecoder(grammar=OmniGrammar())",
+         lambda: dict(grammar=pg.OmniGrammar(),
+                      decoder=pd.OmniDecoder(grammar=pg.OmniGrammar()))),
+    ]
+
+
+def keyword_handover(text):
+    """Both loads() functions take grammar= and decoder=: the same keywords, the same
+    outcome and the same content."""
+    for name, mk in _kw_sets():
+        try:
+            old = ("ok", pvl.loads(text, lexer_fn=counting_lexer(), **mk()))
+        except BudgetExceeded:
+            continue
+        except Exception as e:
+            old = ("raised", type(e).__name__)
+        try:
+            new = ("ok", pvl.new.loads(text, lexer_fn=counting_lexer(), **mk()))
+        except BudgetExceeded:
+            continue
+        except Exception as e:
+            new = ("raised", type(e).__name__)
+        STATS["kw:" + old[0]] = STATS.get("kw:" + old[0], 0) + 1
+        if old[0] != new[0]:
+            return ("fail", "C19/keywords/load-outcome-differs",
+                    f"{name}: pvl.loads -> {old[:2]!r:.80}, pvl.new.loads -> "
+                    f"{new[:2]!r:.80}; text={text[:300]!r}")
+        if old[0] == "ok" and not list(old[1].errors):
+            d = nm.diff(structure(old[1], False)[0], structure(new[1], True)[0])
+            if d is not None:
+                return ("fail", "C19/keywords/content-differs",
+                        f"{name}: at {d[0]}: default {d[1]!r} new {d[2]!r}; "
+                        f"text={text[:300]!r}")
+    return None
+
+
 def bytes_variants(text):
     """The label as a bytes object: as UTF-8, with image data behind it, in another
     8-bit encoding, and with a stray undecodable byte in the middle (a degree sign
@@ -222,6 +269,10 @@ def run_text(text, arbitrary=False):
                     f"its top level: {pn3[:3]} {nm.diff(so, sn3)}; text={text[:300]!r}")
     if zlib.crc32(text.encode("utf-8", "surrogatepass")) % 3 == 0 or len(text) < 120:
         why = bytes_handover(text)
+        if why is not None:
+            return why
+    if zlib.crc32(text.encode("utf-8", "surrogatepass")) % 3 == 2 or len(text) < 120:
+        why = keyword_handover(text)
         if why is not None:
             return why
     a = enc_outcome(lambda: pvl.dumps(old[1]))
